@@ -56,7 +56,8 @@ def seeded_table():
                 if mo:
                     ob = mo.group(1)
                     ob = re.sub(r'\[.*$', '', ob)
-                    by = 'obligation `%s`' % short(ob) + (' (no-failing-input-found)' if 'no-failing-input-found' in v[0] else '')
+                    by = 'obligation `%s`' % short(ob) + (' (no-failing-input-found)' if 'no-failing-input-found' in v[0]
+                                                           else ' + a failing input from a bounded driver (replayable)')
                 else:
                     mo = re.search(r'standin=(\S+)', v[0])
                     by = 'stand-in %s (replayable scenario)' % (('`%s`' % mo.group(1)) if mo else '')
